@@ -644,3 +644,63 @@ Definition c18_children_check (x : tgraph * Z * list Z) : bool :=
 Definition c18_no_plan_ahead_applies (x : tgraph * sched_opts * list Z) : bool :=
   let '(g, o, fr) := x in
   (so_lookahead o =? 0) && negb (so_retract o) && negb (so_release_tg o) && frontier_sane g (so_time o).
+
+(* ---------- documented forms, written by hand (they do NOT follow the regenerated source) ---------- *)
+(* a task may start when it is SCHEDULED / PREEMPTED and its inputs are there: every parent complete, for
+   the join of a conditional one parent complete *)
+Definition doc_ready (g : tgraph) (t : Z) : bool :=
+  (if tg_terminal g t then existsb (tg_complete g) (tg_parents g t) else forallb (tg_complete g) (tg_parents g t))
+  && (task_state_eqb (tg_state g t) TS_SCHEDULED || task_state_eqb (tg_state g t) TS_PREEMPTED).
+Definition c18_ready_check (x : tgraph * Z * bool) : bool :=
+  let '(g, t, answer) := x in Bool.eqb answer (doc_ready g t).
+(* releasable: not yet released (VIRTUAL, or SCHEDULED / PREEMPTED ahead of release) and every parent complete *)
+Definition doc_releasable (g : tgraph) : list Z :=
+  filter (fun n => (task_state_eqb (tg_state g n) TS_VIRTUAL || task_state_eqb (tg_state g n) TS_SCHEDULED
+                    || task_state_eqb (tg_state g n) TS_PREEMPTED)
+                   && forallb (tg_complete g) (tg_parents g n)) (tg_nodes g).
+Definition c18_releasable_check (x : tgraph * list Z) : bool :=
+  let '(g, rel) := x in same_set rel (doc_releasable g) && znodup rel.
+(* notify_task_completion of a non-conditional task raised RuntimeError: some child had started *)
+Definition c18_children_err_check (x : tgraph * Z) : bool :=
+  let '(g, t) := x in
+  existsb (fun c => let s := tg_state g c in
+                    task_state_eqb s TS_RUNNING || task_state_eqb s TS_PREEMPTED || task_state_eqb s TS_EVICTED
+                    || task_state_eqb s TS_COMPLETED) (tg_children g t).
+
+(* reference estimate of the completion time (no retraction, no conditional task): the estimate of a
+   materialised task, and for a VIRTUAL task the latest estimate proposed by a parent; recursion over the
+   parents instead of the work-list of the code *)
+Definition ref_init (g : tgraph) (time n : Z) : option Z :=
+  let t := tg_task g n in
+  match tg_state g n with
+  | TS_COMPLETED => Some (t_completion_time (tt_dyn t))
+  | TS_RUNNING | TS_PREEMPTED | TS_EVICTED => Some (time + t_remaining_time (tt_dyn t))
+  | TS_RELEASED => Some (Z.max (t_release_time (tt_dyn t)) time + slowest_of t)
+  | TS_SCHEDULED => Some (tt_expected_start t + t_remaining_time (tt_dyn t))
+  | TS_VIRTUAL | TS_CANCELLED => None
+  end.
+Fixpoint ref_est (fuel : nat) (g : tgraph) (time n : Z) : option Z :=
+  match fuel with
+  | O => None
+  | S f =>
+      match tg_state g n with
+      | TS_VIRTUAL =>
+          let sl := tg_slowest g n in
+          fold_left (fun acc p =>
+                       match ref_est f g time p with
+                       | None => acc
+                       | Some e => let v := Z.max (e + sl) (t_release_time (tt_dyn (tg_task g n)) + sl) in
+                                   match acc with None => Some v | Some a => Some (Z.max a v) end
+                       end) (tg_parents g n) None
+      | _ => ref_init g time n
+      end
+  end.
+(* the VIRTUAL tasks of the frontier are exactly those estimated to be releasable within the horizon *)
+Definition c18_virtual_offer_check (x : tgraph * sched_opts * list Z) : bool :=
+  let '(g, o, fr) := x in
+  so_retract o || so_release_tg o || existsb (tg_conditional g) (tg_nodes g) ||
+  forallb (fun n => negb (task_state_eqb (tg_state g n) TS_VIRTUAL) ||
+                    Bool.eqb (zmem n fr)
+                             (match ref_est (S (length (tg_nodes g))) g (so_time o) n with
+                              | Some e => e <=? so_time o + so_lookahead o + tg_slowest g n
+                              | None => false end)) (tg_nodes g).
